@@ -502,6 +502,12 @@ func C02(r *core.Run) {
 		r.Finish(1)
 	}
 
+	slowDone := make(chan struct{})
+	go func() {
+		defer close(slowDone)
+		c02SlowBodies(r, addr, rec)
+	}()
+
 	total := r.Pick(800, 24000)
 	nbig := r.Pick(6, 160)
 	workers := 8
@@ -583,6 +589,7 @@ func C02(r *core.Run) {
 	}
 	c02H2(r, md, serverBin, agentBin)
 	c02Full(r, md, serverBin, agentBin)
+	<-slowDone
 	judgeProcs(r, true, server, agent)
 	killAll(agent, server)
 	// Races are listed but only attributed ones decide (anchors: server.go, utils.go, agent.go)
@@ -852,4 +859,62 @@ func dropField(fs []rawhttp.Field, name string) []rawhttp.Field {
 		}
 	}
 	return out
+}
+
+// c02SlowBodies sends a few requests whose bodies arrive slowly (a pause of
+// more than 10 s - thorough: also more than 30 s - in the middle of the body,
+// well inside the agent's 60 s fetch time-out): the backend must still receive
+// the complete body.  The pause is the input; nothing is decided by timing.
+func c02SlowBodies(r *core.Run, addr string, rec *recorder) {
+	pauses := []time.Duration{10500 * time.Millisecond}
+	if !r.Quick() {
+		pauses = append(pauses, 31*time.Second)
+	}
+	rng := r.Rand("c02-slow")
+	var wg sync.WaitGroup
+	for pi, pause := range pauses {
+		for k := 0; k < 2; k++ {
+			g := &genReq{Tok: fmt.Sprintf("s%dslow%d-%d", r.Seed, pi, k), Method: []string{"POST", "PUT"}[k], Host: "slow.example", Chunked: k == 1}
+			g.Target = "/slow/" + g.Tok
+			g.BodyLen = 3000 + rng.Intn(70000)
+			g.body = make([]byte, g.BodyLen)
+			rng.Read(g.body)
+			cut := 1 + rng.Intn(g.BodyLen-1)
+			g.Chunks = []int{cut, g.BodyLen - cut}
+			g.Class = fmt.Sprintf("%s|slow-body|pause=%ds|chunked=%v", g.Method, int(pause.Seconds()), g.Chunked)
+			wire := g.wire()
+			// position in the wire image after which the client pauses: inside the body
+			at := len(wire) - (g.BodyLen - cut) - 16
+			wg.Add(1)
+			go func(g *genReq, wire []byte, at int, pause time.Duration) {
+				defer wg.Done()
+				r.Case(g.Class)
+				conn, err := net.DialTimeout("tcp", addr, 5*time.Second)
+				if err != nil {
+					r.Inconclusive("slow-body lane: dial: " + err.Error())
+					return
+				}
+				defer conn.Close()
+				conn.Write(wire[:at])
+				time.Sleep(pause)
+				conn.Write(wire[at:])
+				conn.SetReadDeadline(time.Now().Add(30 * time.Second))
+				m, err := rawhttp.ReadResponse(bufio.NewReader(conn), g.Method)
+				got, perr := rec.get(g.Tok)
+				if len(got) == 0 {
+					r.Violate("C02:request-not-delivered:slow-body", fmt.Sprintf("%s with a body sent over %s was not delivered to the backend (client: %v %v)", g.Method, pause, m != nil, err), g, nil)
+					return
+				}
+				if perr != "" {
+					r.Violate("C02:backend-parse-error:slow-body", fmt.Sprintf("backend could not parse forwarded slow request %s (body sent over %s): %s; body got %d of %d bytes", g.Tok, pause, perr, len(got[0].Body), g.BodyLen), g, nil)
+					return
+				}
+				if bad := compareRequest(g, got[0]); len(bad) > 0 {
+					r.Violate("C02:"+diffKind(bad[0])+":slow-body", fmt.Sprintf("%s %s (body sent over %s): %s", g.Method, g.Target, pause, strings.Join(bad, "; ")), g, nil)
+				}
+			}(g, wire, at, pause)
+		}
+	}
+	wg.Wait()
+	r.Add("slow_body_requests", len(pauses)*2)
 }
